@@ -4,11 +4,11 @@ import json, sys
 
 BUILT = {
  "C01": ("model_checking", "E1 posgraph", "5.C01",
-   "Explicit-state model checking of the real Board: every position of bounded move trees below ~190 curated/mirrored roots (stateright, depth in key) and of completely enumerated 3-man, en-passant (one and two capturers, one enemy slider anywhere), castling, promotion and line-geometry (every king square x rays x pinned man / slider / battery) families is judged against an independent mailbox reference generator: yielded set (missing/extra/duplicate), len, enumerate_moves, legal_quick, Board::legal on legal / pseudo-legal-illegal / wrong-promotion moves, and the complete 64x64x5 sweep on shallow states. Bounded exhaustive, not a proof for all positions.",
+   "Explicit-state model checking of the real Board: every position of bounded move trees below ~190 curated/mirrored roots (stateright, depth in key) and of completely enumerated 3-man, en-passant (one and two capturers, one enemy slider anywhere), castling, promotion, line-geometry (every king square x rays x pinned man / slider / battery) and two-slider en-passant families is judged against an independent mailbox reference generator: yielded set (missing/extra/duplicate), len, enumerate_moves, legal_quick, Board::legal on legal / pseudo-legal-illegal / wrong-promotion moves, and the complete 64x64x5 sweep on shallow states; pairs of positions whose hashes agree in a truncation of the key are judged back to back on one thread (state carried between calls). Bounded exhaustive, not a proof for all positions.",
    "reference move generator (validated at start-up against published perft constants); stateright 64-bit fingerprints; small-scope hypothesis for positions outside the universes",
    "explicit-state exploration of the implementation (stateright BFS/DFS + exhaustive family enumeration) against a reference model"),
  "C02": ("model_checking", "E1 posgraph", "5.C02",
-   "Every transition (legal move applied by make_move_new) of the same universes is compared with the reference successor on all 64 squares, side, rights and the en-passant sandwich; make_move into four different output pre-states must equal make_move_new.",
+   "Every transition (legal move applied by make_move_new) of the same universes is compared with the reference successor on all 64 squares, side, rights and the en-passant sandwich; make_move into four different output pre-states, and into every valid sibling of the source (same placement with other rights / en-passant state / side; same squares with two men exchanged), must equal make_move_new.",
    "reference apply (FIDE art. 3); tolerant zone T1 for en-passant recording between 'legal capture exists' and 'neighbouring pawn exists'",
    "explicit-state exploration of the implementation, every transition judged against a reference model"),
  "C03": ("model_checking", "E1 posgraph", "5.C03",
@@ -28,7 +28,7 @@ BUILT = {
    "independent FEN writer in the reference model",
    "explicit-state exploration of the implementation with a text oracle on every state"),
  "C08": ("model_checking", "E1 posgraph", "5.C08",
-   "On every arrival (transpositions and null-move paths included) the incremental hash equals the hash of the position built from scratch; a run-wide map observable position -> hash stays single-valued; std Hash consistent with ==.",
+   "On every arrival (transpositions and null-move paths included) the incremental hash equals the hash of the position built from scratch; a run-wide map observable position -> hash stays single-valued; std Hash consistent with ==; the in-place entry point is driven into default and sibling output boards and whatever it leaves there must hash like that position built from scratch; hash-truncation collision pairs are moved back to back on one thread.",
    "from-scratch construction through the library's own builder as the definition of 'the hash of a position'",
    "explicit-state exploration of the implementation; every arrival judged (path independence)"),
  "C09": ("model_checking", "E1 posgraph + sibling sweep", "5.C09",
@@ -40,7 +40,7 @@ BUILT = {
    "mirror maps of the harness; symmetric defects are out of scope here (C01-C04 cover them)",
    "explicit-state exploration with a metamorphic (mirror) oracle on every state and transition"),
  "C18": ("model_checking", "E1 posgraph", "5.C18",
-   "null_move() judged on every state (null is also an action, up to 2 per path): refused iff in check; otherwise equals the passed position built from scratch.",
+   "null_move() judged on every state (null is also an action, up to 2 per path): refused iff in check; otherwise equals the passed position built from scratch; hash-truncation collision pairs (incl. 40-bit agreements) are passed back to back on one thread.",
    "reference in-check test; from-scratch construction",
    "explicit-state exploration of the implementation with null moves as actions"),
 
@@ -57,7 +57,7 @@ BUILT = {
    "FIDE 9.2/9.3 on the reference game; tolerant zone T3 for the two readings of 'en-passant possibility'",
    "exhaustive menu sequences + deviation-bounded exploration of long histories against a reference claim rule"),
  "C12": ("model_checking", "E1 posgraph positions + E3 text sweep", "5.C12",
-   "For ~13k positions every admissible spelling of every legal move must parse to it; on ~60 positions every grammar-complete text (~180k each) is judged by a reference interpreter; 1-edit balls of all spellings and all short strings must be panic-free and only ever return legal moves.",
+   "For ~13k positions every admissible spelling of every legal move must parse to it; on ~60 positions every grammar-complete text (~180k each) is judged by a reference interpreter; 1-edit balls of all spellings and all short strings must be panic-free and only ever return legal moves; call-order pairs (positions whose hashes agree in a truncation of the key) are asked about back to back.",
    "independent SAN writer/interpreter; tolerant zone T4 for unvalidated markers and castling spelled as a king move",
    "exhaustive enumeration of spellings and grammar-complete texts per position against a reference interpreter"),
  "C13": ("exploration", "E3 sweep", "5.C13",
@@ -65,7 +65,7 @@ BUILT = {
    "the alphabet and length bound for the trie; single-character aliasing is covered for every scalar value, lengths up to 2^20",
    "complete enumeration of a finite input domain"),
  "C14": ("model_checking", "E2 protocol", "5.C14",
-   "Per position every program [<=2 removals][<=3 mask phases][flush] within stated bounds is executed on the real MoveGen with len() and size_hint() read before every next(); judged against a reference remaining-move set.",
+   "Per position every program [<=2 removals][<=3 mask phases][flush] within stated bounds (plus a removal right after a mask call) is executed on the real MoveGen twice — with len() and size_hint() read before every next(), and with no such call at all; judged against a reference remaining-move set; the provided Iterator methods (count, last, fold, nth, take, skip, step_by) after 0..5 plain next() calls are compared with plain iteration.",
    "reference legal-move set; tolerant zone T5 (moves sharing source and destination with a removed move); remove_move's return value is not judged",
    "exhaustive enumeration of iterator call programs against a reference model"),
  "C15": ("exploration", "E3 sweep (two builds)", "5.C15",
